@@ -26,6 +26,8 @@ struct BQ {
     end: Option<i32>,
     api: BObs,
     cli: Option<BObs>,
+    /// the command was given the target by an alias declared in front of the ledger
+    via_alias: bool,
 }
 
 fn naive(d: i32) -> chrono::NaiveDate {
@@ -63,14 +65,15 @@ fn from_err(msg: &str) -> BObs {
     }
 }
 
-fn cli_balance(ledger: &std::path::Path, db: Option<&std::path::Path>, q: &BQ) -> BObs {
-    let mut args: Vec<String> = vec!["balance".into(), "-X".into(), COMMODITIES[q.target].into()];
+/// the words of `okane balance -X NAME ...` for query q; `hist_now` is the --now of a
+/// historical run (no rate depends on it; --now defaults to today's date: always pinned)
+fn balance_args(ledger: &std::path::Path, db: Option<&std::path::Path>, q: &BQ, name: &str, hist_now: i32) -> Vec<String> {
+    let mut args: Vec<String> = vec!["balance".into(), "-X".into(), name.into()];
     match q.now {
         None => {
             args.push("--historical".into());
-            // --now defaults to today's date: always pinned
             args.push("--now".into());
-            args.push(iso_date(0));
+            args.push(iso_date(hist_now));
         }
         Some(n) => {
             args.push("--now".into());
@@ -90,6 +93,11 @@ fn cli_balance(ledger: &std::path::Path, db: Option<&std::path::Path>, q: &BQ) -
         args.push(p.to_string_lossy().to_string());
     }
     args.push(ledger.to_string_lossy().to_string());
+    args
+}
+
+fn cli_balance(ledger: &std::path::Path, db: Option<&std::path::Path>, q: &BQ, name: &str, hist_now: i32) -> BObs {
+    let args = balance_args(ledger, db, q, name, hist_now);
     let refs: Vec<&str> = args.iter().map(|s| s.as_str()).collect();
     let r = cli::run(&refs);
     if r.panicked {
@@ -179,7 +187,7 @@ fn gen_queries(r: &mut Rng, case: &PriceCase, evs: &[Ev], thorough_pairs: bool) 
         for t in &known {
             for now in [None, Some(hi), Some(lo)] {
                 for (start, end) in [(None, None), (Some(lo), Some(hi)), (Some(lo), None), (None, Some(hi)), (Some(lo + 1), Some(hi))] {
-                    out.push(BQ { target: *t, now, start, end, api: BObs::Other(String::new()), cli: None });
+                    out.push(BQ { target: *t, now, start, end, api: BObs::Other(String::new()), cli: None, via_alias: false });
                 }
             }
         }
@@ -207,7 +215,7 @@ fn gen_queries(r: &mut Rng, case: &PriceCase, evs: &[Ev], thorough_pairs: bool) 
                     (Some(a.min(b)), Some(a.max(b) + r.range(0, 1) as i32))
                 }
             };
-            out.push(BQ { target: *t, now, start, end, api: BObs::Other(String::new()), cli: None });
+            out.push(BQ { target: *t, now, start, end, api: BObs::Other(String::new()), cli: None, via_alias: false });
         }
     }
     out
@@ -223,7 +231,7 @@ fn stored_queries(v: &serde_json::Value) -> Vec<BQ> {
             let now = if strat == "historical" { Some(None) } else { strat.strip_prefix("up-to-date now=").and_then(from_iso).map(Some) };
             let d = |k: &str| q.get(k).and_then(|x| x.as_str()).and_then(from_iso);
             if let (Some(target), Some(now)) = (target, now) {
-                out.push(BQ { target, now, start: d("start"), end: d("end"), api: BObs::Other(String::new()), cli: None });
+                out.push(BQ { target, now, start: d("start"), end: d("end"), api: BObs::Other(String::new()), cli: None, via_alias: false });
             }
         }
     }
@@ -306,12 +314,81 @@ fn run_case(sh: &mut Shards, st: &mut Stats, scratch: &cli::Scratch, r: &mut Rng
             (Obs::Err { entry: 0, err: ErrObs::Other(e.clone()), text: e.clone() }, e)
         }
     };
+    let txn_dates: Vec<i32> = case.entries.iter().filter_map(|e| if let Entry::Txn(t) = e { Some(t.date) } else { None }).collect();
+    // --now of a historical run: before every transaction, on one of their dates, after all
+    let hist_now = |r: &mut Rng, st: &mut Stats| -> i32 {
+        let lo = txn_dates.iter().min().copied().unwrap_or(0);
+        let hi = txn_dates.iter().max().copied().unwrap_or(0);
+        let n = match r.below(4) {
+            0 => 0,
+            1 => lo - 1 - r.below(3) as i32,
+            2 => *r.pick(&txn_dates[..]),
+            _ => hi + 1 + r.below(30) as i32,
+        };
+        if txn_dates.iter().any(|d| *d > n) {
+            st.count("leg:cli_historical_now_before_some_transaction");
+        } else {
+            st.count("leg:cli_historical_now_after_all_transactions");
+        }
+        n
+    };
+    let mut unknown: Vec<URun> = Vec::new();
+    let known = known_commodities(case);
+    let in_ledger: Vec<usize> = {
+        let mut c = case.clone();
+        c.db.clear();
+        known_commodities(&c)
+    };
     if !qs.is_empty() {
         for _ in 0..cli_budget {
             let k = r.below(qs.len() as u64) as usize;
             if qs[k].cli.is_none() {
-                qs[k].cli = Some(cli_balance(&ledger_path, db_path.as_deref(), &qs[k]));
+                let hn = if qs[k].now.is_none() && !txn_dates.is_empty() { hist_now(r, st) } else { 0 };
+                qs[k].cli = Some(cli_balance(&ledger_path, db_path.as_deref(), &qs[k], COMMODITIES[qs[k].target], hn));
             }
+        }
+        // a target reached through an alias: the ledger once more behind `commodity T / alias NAME`
+        // (one query; counted as a query of its own with the command's answer only)
+        if matches!(obs, Obs::Ok { .. }) {
+            let k = r.below(qs.len() as u64) as usize;
+            let t = qs[k].target;
+            let alias = format!("{}ALIAS", COMMODITIES[t]);
+            let text = format!("commodity {}\n    alias {}\n\n{}", COMMODITIES[t], alias, rendered.text);
+            let alias_path = scratch.write("case_alias.ledger", &text);
+            let mut q = qs[k].clone();
+            q.cli = Some(cli_balance(&alias_path, db_path.as_deref(), &q, &alias, 0));
+            q.via_alias = true;
+            st.count("leg:cli_target_given_by_alias");
+            qs.push(q);
+        }
+        // targets the ledger and the price DB do not know: under the options of one of the queries each
+        if matches!(obs, Obs::Ok { .. }) {
+            for _ in 0..(cli_budget.min(4)).max(2) {
+                let k = r.below(qs.len() as u64) as usize;
+                let (kind, name) = unknown_target(r, &known);
+                let hn = if qs[k].now.is_none() && !txn_dates.is_empty() { hist_now(r, st) } else { 0 };
+                let with_db = db_path.as_deref().filter(|_| r.chance(3, 4));
+                let args = balance_args(&ledger_path, with_db, &qs[k], &name, hn);
+                st.count(&format!("unknown_target:{}", kind));
+                st.count(match (&qs[k].now, qs[k].start.is_some() || qs[k].end.is_some()) {
+                    (None, false) => "unknown_target:historical",
+                    (None, true) => "unknown_target:historical+range",
+                    (Some(_), false) => "unknown_target:up_to_date",
+                    (Some(_), true) => "unknown_target:up_to_date+range",
+                });
+                let u = run_unknown(kind, args, &name);
+                st.count(match &u.obs {
+                    UObs::NotFound => "unknown_target:result:commodity_not_found",
+                    UObs::Report => "unknown_target:result:report_printed",
+                    UObs::Other(_) => "unknown_target:result:other_failure",
+                });
+                unknown.push(u);
+            }
+        }
+    }
+    for q in &qs {
+        if !in_ledger.contains(&q.target) {
+            st.count("query:target_mentioned_only_in_price_db");
         }
     }
     // measured distribution
@@ -357,7 +434,7 @@ fn run_case(sh: &mut Shards, st: &mut Stats, scratch: &cli::Scratch, r: &mut Rng
             BObs::NotFound(_) => true,
             BObs::Other(_) => false,
         };
-        st.eval(&(text_key.as_str(), q.target, q.now, q.start, q.end), held.len() >= 2 && converted_or_refused);
+        st.eval(&(text_key.as_str(), q.target, q.now, q.start, q.end, q.via_alias), held.len() >= 2 && converted_or_refused);
         st.count(match (&q.now, q.start.is_some() || q.end.is_some()) {
             (None, false) => "query:historical",
             (None, true) => "query:historical+range",
@@ -405,12 +482,13 @@ fn run_case(sh: &mut Shards, st: &mut Stats, scratch: &cli::Scratch, r: &mut Rng
         )
     }));
     let term = format!(
-        "C {} {} {} {} {}",
+        "CU {} {} {} {} {} {}",
         coq::list(case.entries.iter().map(entry_term)),
         db_term(&case.db),
         coq::bool_(case.exact),
         obs_term(&obs),
-        qterms
+        qterms,
+        coq::list(unknown.iter().map(|u| uobs_term(&u.obs).to_string()))
     );
     let rep = json!({
         "property": "C10",
@@ -422,7 +500,8 @@ fn run_case(sh: &mut Shards, st: &mut Stats, scratch: &cli::Scratch, r: &mut Rng
             "target": COMMODITIES[q.target],
             "strategy": match q.now { None => "historical".to_string(), Some(n) => format!("up-to-date now={}", iso_date(n)) },
             "start": q.start.map(iso_date), "end": q.end.map(iso_date),
-            "api": bobs_json(&q.api), "cli": q.cli.as_ref().map(bobs_json)})).collect::<Vec<_>>(),
+            "api": bobs_json(&q.api), "cli": q.cli.as_ref().map(bobs_json), "cli_target_given_by_alias": q.via_alias})).collect::<Vec<_>>(),
+        "unknown_targets": unknown.iter().map(urun_json).collect::<Vec<_>>(),
         "reproduce": "write `ledger` to case.ledger and `price_db` to prices.db, then: okane balance -X <target> [--historical] --now <now> [--start S] [--end E] --price-db prices.db case.ledger",
     });
     if st.samples.len() < 4 && !qs.is_empty() {
@@ -442,7 +521,7 @@ pub fn run(o: &Opts) {
     let mut st = Stats::new();
     let header = "From Coq Require Import List NArith ZArith QArith Qcanon.\nFrom Okv Require Import Base.Maps Base.Dec Model.Amount Model.Book Model.PriceDb Model.Convert Run.LedgerCase Run.PriceCase Run.Classify_C10.\nImport ListNotations.\nOpen Scope N_scope.";
     let mut sh = Shards::new(&o.out, o.shards, header);
-    st.rule = "accepted multi-commodity ledgers from the C09 generator in its rich form (1-8 prices from costs, lot prices, implied exchanges and a price-DB file; 1-4 extra holdings in several accounts and commodities with values that need rounding; format declarations with 0-6 places; about 4 in 9 transactions written DATE=EFFECTIVE with the effective date later, earlier or equal, and up-to-date reports dated between the two), every known commodity as target with 4-5 queries each: historical / up-to-date at a date around the price dates, with no range, start only, end only or both; observed through Ledger::balance(conversion: Some(..)) and (a sample) `okane balance -X T [--historical] --now D [--start --end]` in-process; includes targets for which a needed rate is missing. One evaluation = one query; non-trivial = at least 2 commodities held and at least one conversion performed or refused; distinct by (ledger text, price-DB text, query)".into();
+    st.rule = "accepted multi-commodity ledgers from the C09 generator in its rich form (1-8 prices from costs, lot prices, implied exchanges and a price-DB file; 1-4 extra holdings in several accounts and commodities with values that need rounding; format declarations with 0-6 places; about 4 in 9 transactions written DATE=EFFECTIVE with the effective date later, earlier or equal, and up-to-date reports dated between the two), every known commodity as target with 4-5 queries each: historical / up-to-date at a date around the price dates, with no range, start only, end only or both; observed through Ledger::balance(conversion: Some(..)) and (a sample) `okane balance -X T [--historical] --now D [--start --end]` in-process; includes targets for which a needed rate is missing and targets only the price DB mentions (counted); a historical run of the command is given a --now before every transaction, on a transaction date or after all (counted); one query per ledger is repeated through the command with the target given by an alias (`commodity T / alias TALIAS` in front of the ledger): same report required; and 2-4 runs per ledger ask for a target that neither ledger nor price DB mention (ZZZ, XAU, GBP, BTC, US, USDX) or a known one in another case of letters (usd, Usd, uSD) under the options of one of the queries (up-to-date, --historical, ranged; with and without --price-db): the command must fail with `commodity T not found` (unknown_target:* counts). One evaluation = one query; non-trivial = at least 2 commodities held and at least one conversion performed or refused; distinct by (ledger text, price-DB text, query)".into();
     st.rule = format!("{}; {}", st.rule, TEXT_SHAPES_RULE);
     st.assumptions.push("exact stream: rates and priced quantities are products of powers of 2 and 5 (exact Decimal division), reports compared exactly; arbitrary-rate stream compared with relative tolerance 1e-18".into());
     st.assumptions.push("where an amount to be converted has several optimal chains with different rates (genuine tie) only success/failure and the result commodity are checked".into());
